@@ -8,7 +8,7 @@ THEOREMS = ["SCP.C17." + t for t in """mem_charMapFrom nchars_new pos_le_nchars 
 step_wf pipeline_ordered ordered_consecutive old_collision_witness""".split()] + ["SCP.LexerUi.lexer_highlight_wf"]
 RULE = ("lines of the shared generators (arithmetic, money, percent, dates, durations, times with zones, units, variables over several "
         "lines, comments) with words from a curated alphabet inserted before / between / after tokens: 2-, 3-, 4-byte characters, characters "
-        "whose case mapping changes their byte length (İ ß ŉ ǰ ΐ ﬁ ﬃ K Ω), combining marks, RTL currency symbols, lines of more than 2^16 characters (implementation only: the model is not run on them), blanks other than U+0020 (U+00A0 U+2009 U+3000 U+202F U+2003) glued to numbers / operators / inside comments, Turkish words, in en and tr; "
+        "whose case mapping changes their byte length (İ ß ŉ ǰ ΐ ﬁ ﬃ K Ω), combining marks, RTL currency symbols, lines matched by a rule registered through add_rule behind multi-byte characters, lines of more than 2^16 characters (implementation only: the model is not run on them), blanks other than U+0020 (U+00A0 U+2009 U+3000 U+202F U+2003) glued to numbers / operators / inside comments, Turkish words, in en and tr; "
         "oracle 1 (every line): 0 <= start < end <= number of characters, ordered by start, no overlap; oracle 2 (structured lines whose "
         "pieces are known): every number literal, operator character and comment has a token of its own kind covering exactly its characters; "
         "tie: the highlight requests of the model's tokenizers (from the raw text) equal the adds of the implementation's operation log; the implementation's operation log (hook, target verif_ui) of EVERY collection is replayed on the Lean model: final tokens and "
@@ -176,10 +176,32 @@ def run(ctx, model_ok):
         text = f"{pad}{a_} + {b_}"
         n0 = len(pad)
         cases.append({"lang": "en", "text": text, "exp": [(n0, n0 + 2, "Number"), (n0 + 3, n0 + 4, "Operator"), (n0 + 5, n0 + 6, "Number")], "long": True})
-    res = C.run_impl([{"op": "exec", "lang": c["lang"], "text": c["text"], "uilog": not c.get("long")} for c in cases], timeout_ms=60000)
+    # a rule registered through add_rule matches behind multi-byte characters: the highlight of the rewritten span is merged by
+    # byte offsets (update_tokens), all positions reported are still character positions
+    for _ in range(ctx.n(60, 1500)):
+        lang = rng.choice(["en", "tr"])
+        pre = rng.choice(["ğğğ", "über", "ığdır", "İİ", "日本", "😀😀", "ß", "çok güzel", ""])
+        n_, coin = rng.randint(1, 99), rng.choice(["btc", "eth", "şey"])
+        tail = rng.choice(["", " + 2", " * 3", " # ğ"])
+        text = (pre + " " if pre else "") + f"{n_} {coin}{tail}"
+        n0 = len(pre) + 1 if pre else 0
+        exp = [(n0, n0 + len(str(n_)), "Number")] if not tail.startswith(" #") or True else []
+        cases.append({"lang": lang, "text": text, "exp": None, "rule": {"op": "rule_add", "lang": lang, "name": "coinrule", "kind": "const",
+                                                                           "patterns": ["{NUMBER:count} {TEXT:coin}"], "v": 42}})
+    ops_all, pos_of = [], []
+    for c in cases:
+        if c.get("rule"):
+            ops_all.append(c["rule"])
+        pos_of.append(len(ops_all))
+        ops_all.append({"op": "exec", "lang": c["lang"], "text": c["text"], "uilog": not c.get("long")})
+        if c.get("rule"):
+            ops_all.append({"op": "rule_del", "lang": c["lang"], "name": "coinrule"})
+    res_all = C.run_impl(ops_all, timeout_ms=60000)
+    res = [res_all[i] for i in pos_of]
     replay = []   # (case index, line index, bytes, ops, impl tokens)
     for ci, (c, r) in enumerate(zip(cases, res)):
-        ops = [{"op": "exec", "lang": c["lang"], "text": c["text"]}]
+        ops = ([c["rule"]] if c.get("rule") else []) + [{"op": "exec", "lang": c["lang"], "text": c["text"]}] + \
+            ([{"op": "rule_del", "lang": c["lang"], "name": "coinrule"}] if c.get("rule") else [])
         lines = wire.split_lines(c["text"])
         multibyte = any(ord(ch) > 127 for ch in c["text"])
         ctx.seen(c["text"], multibyte)
